@@ -37,6 +37,10 @@ KINDS = {"in": ("IN", "InTransaction", "in_header"), "out": ("OUT", "OutTransact
 NON_HEADER_PARAMS = {"self", "configuration", "row", "from_lot"}
 
 
+def _calls_new_helper(p) -> bool:
+    return p.has(lambda e: isinstance(e, tuple) and e and e[0] == "newcall")
+
+
 def find_row_loop(rep: Report, rule: str, prog, po):
     """The loop of parse_ods over the rows of the asset's sheet: `for .. in [enumerate(]<sheet>.rows()[)]`, or the same through a generator helper of the
     parser module that hands on the rows of its argument. A helper that can stop before its source is exhausted (return / break inside its loop) is a
@@ -425,12 +429,18 @@ def check_handler_paths(rep: Report, rd: str) -> None:
     # handler
     h = prog.func(OP, "_create_and_process_transaction")
     rep.analysed(h)
+    from .. import delegation
+
+    known = set(delegation.table().get("defined", []))
+    new_helpers = {f.node.name for f in prog.functions.values() if f.module == OP and f.cls is None and f.node.name not in known}
 
     def ev(node: ast.AST):
         out = []
         for c in ast.walk(node):
             if isinstance(c, ast.Call) and isinstance(c.func, ast.Attribute) and c.func.attr == "add_entry":
                 out.append(("add", unparse(c.func.value)))
+            if isinstance(c, ast.Call) and isinstance(c.func, ast.Name) and c.func.id in new_helpers:
+                out.append(("newcall", c.func.id))  # a module-level helper the reference tree does not define: the adding may have moved there
             if isinstance(c, ast.Call) and isinstance(c.func, ast.Attribute) and c.func.attr == "append" and "artificial" in unparse(c.func.value):
                 out.append(("artificial", unparse(c.func.value)))
         return out or None
@@ -441,7 +451,7 @@ def check_handler_paths(rep: Report, rd: str) -> None:
         adds = [e for e in p.events if e[0] == "add"]
         arts = [e for e in p.events if e[0] == "artificial"]
         ok = len(adds) == 1 and len(arts) <= 1 and p.exit in ("fall", "return")
-        rep.check(ok, rd, OP, h.qualname, f"handler path ({'split' if arts else 'plain'}) adds exactly one transaction" + ("" if ok else f" [{len(adds)} adds, exit {p.exit}]"), f"a path of _create_and_process_transaction (exit '{p.exit}' at {loc(p.exit_node) if p.exit_node else 'end'}) adds {len(adds)} transaction(s) to the sets and {len(arts)} to the artificial list; every parsed row must become exactly one transaction (rows must never be skipped, e.g. as 'duplicates')", loc(h.node), definite=p.exit != "fall" and not adds)  # an explicit return / continue that leaves without adding is a located construct
+        rep.check(ok, rd, OP, h.qualname, f"handler path ({'split' if arts else 'plain'}) adds exactly one transaction" + ("" if ok else f" [{len(adds)} adds, exit {p.exit}]"), f"a path of _create_and_process_transaction (exit '{p.exit}' at {loc(p.exit_node) if p.exit_node else 'end'}) adds {len(adds)} transaction(s) to the sets and {len(arts)} to the artificial list; every parsed row must become exactly one transaction (rows must never be skipped, e.g. as 'duplicates')", loc(h.node), definite=p.exit != "fall" and not adds and not _calls_new_helper(p))  # an explicit return / continue that leaves without adding is a located construct - unless the path hands the row to a helper the reference tree does not know (the adding may have moved there)
         if adds and not arts:
             rep.check(adds[0][1] == "unfiltered_transaction_sets[current_table_type]", rd, OP, h.qualname, "plain path adds to the set of the current table", f"the transaction is added to {adds[0][1]}; expected unfiltered_transaction_sets[current_table_type]", loc(h.node))
     first = h.body[0] if h.body else None
